@@ -9798,6 +9798,10 @@ simplifier_merge_ancestors(simplifier_t *self, tsk_id_t input_id)
             } else if (keep_unary) {
                 if (output_id == TSK_NULL) {
                     output_id = simplifier_record_node(self, input_id);
+                    if (output_id < 0) {
+                        ret = (int) output_id;
+                        goto out;
+                    }
                 }
                 ret = simplifier_record_edge(self, left, right, ancestry_node);
                 if (ret != 0) {
